@@ -5,7 +5,8 @@ package main
 // C16 part 3: the behaviour clause. For every S/QF check whose fix is meant to be an equivalent
 // rewrite there are trigger templates with operand holes. Every hole is filled with every operand
 // kind of its type (variable, constant, negative literal, logging call, lower-precedence binary
-// expression, parenthesised expression; for bool also a comparison), one function per filling.
+// expression, parenthesised expression; for bool also a comparison; float64 operands under every
+// comparison operator for the checks that rewrite conditions), one function per filling.
 // All functions live in one generated package that goes through the real runner like any other
 // package (so parts 1's invariants are asserted on it too). Every fix of an asserted check that
 // lands in a template function is applied on its own; the original and the patched function are
@@ -35,7 +36,7 @@ import (
 type c16Template struct {
 	Name  string
 	Check string   // the check the shape is meant to trigger
-	Holes []string // int | bool | str
+	Holes []string // int | bool | str | flt (float64 operand) | op (comparison operator)
 	Body  string   // $0, $1, ... are the holes; assigns ret
 }
 
